@@ -12,7 +12,8 @@
       goroutine                      steps
       ---------------------------    --------------------------------------------------
       caller of exchange e           start, getIdle (one iteration of the `for c := range
-        (ExchangeContext)            t.idleConns` loop incl. `exitIdle`), recvRes
+        (ExchangeContext)            t.idleConns` loop incl. `exitIdle`; when `retry > 5` the
+                                     pool is not consulted and the attempt dials), recvRes
                                      (`case r := <-resChan`, retry decision), giveUp
                                      (`case <-ctx.Done()` in asyncDial / exchangeConnCtx)
       dial goroutine of e            dialDone (DialContext returns; newReusableConn),
@@ -261,7 +262,11 @@ def stepCoreG (racy : Bool) (s : State) (a : Act) : State :=
   | .getIdle e pick =>
     match (s.caller e).phase with
     | .get =>
-      if s.tclosed then s.finish e .err       -- ErrClosedTransport
+      if decide ((s.caller e).retry > 5) then
+        -- `if retry <= 5 { c, err = t.getIdleConn() … }` is skipped: the last attempt always
+        -- dials; neither the idle set nor t.closed is looked at here
+        s.setCaller e { s.caller e with phase := .dialing, dial := .dialing }
+      else if s.tclosed then s.finish e .err       -- ErrClosedTransport
       else
         match pick with
         | none =>
@@ -551,11 +556,16 @@ def nextInternal (s : State) (nex : Nat) (picks : List Nat) : Option Act :=
   let prog := (List.range nex).findSome? (fun e =>
     let k := s.caller e
     match k.phase with
-    | .get => if s.tclosed then none else some (Act.getIdle e (choosePick s picks))
+    | .get =>
+      if decide (k.retry > 5) then some (Act.getIdle e none)      -- straight to asyncDial
+      else if s.tclosed then none else some (Act.getIdle e (choosePick s picks))
     | .wait _ new =>
       match s.chan e k.retry with
       | some .err => if !new && decide (k.retry ≤ 5) && !k.cancelled then some (Act.recvRes e) else none
       | _ => none
+    | .dialing =>
+      -- after Close the dial context is cancelled: DialContext fails at once
+      if s.tclosed && k.dial == .dialing then some (Act.dialDone e false) else none
     | _ => none)
   match prog with
   | some a => some a
@@ -578,7 +588,7 @@ def nextInternal (s : State) (nex : Nat) (picks : List Nat) : Option Act :=
   (List.range nex).findSome? (fun e =>
     let k := s.caller e
     match k.phase with
-    | .get => if s.tclosed then some (Act.getIdle e none) else none
+    | .get => if s.tclosed && decide (k.retry ≤ 5) then some (Act.getIdle e none) else none
     | .wait _ _ =>
       match s.chan e k.retry with
       | some _ => some (Act.recvRes e)
